@@ -73,7 +73,8 @@ func checkGuards(c *Ctx, p *Prog, rule string, guards []*Guard) {
 			}
 			bad := false
 			for _, a := range perFn[fn] {
-				if !ls.Held(a.Instr)[g.Lock] {
+				held := ls.Held(a.Instr)
+				if !held[g.Lock] && !(held[g.Lock+"(R)"] && readOnlyAccess(a.Instr)) {
 					c.Bad(rule, key, p, a.Instr.Pos(), fmt.Sprintf("%s (%s) without %s held (held: %s); %s", a.What, a.Instr.String(), g.Lock, ls.Held(a.Instr), g.Why))
 					bad = true
 					break
